@@ -4,3 +4,15 @@
 
 #[cfg(kani)]
 mod c07;
+#[cfg(kani)]
+mod c16;
+#[cfg(kani)]
+mod dec;
+#[cfg(kani)]
+mod c03;
+#[cfg(kani)]
+mod c24;
+#[cfg(kani)]
+mod c14;
+#[cfg(kani)]
+mod c13;
